@@ -95,12 +95,18 @@ int main(int argc, char **argv) {
                              unsigned char pk2[32]; if (crypto_core_ed25519_add(pk2, pk, T) == 0) { sign_shifted(sig2, m, mlen, seed, NULL, pk2, 1); rec_verify("A_plus_T", sig2, m, mlen, pk2, 0); } } }
             /* triples that satisfy the cofactored equation but have a small-order key or a small-order R: only the
              * small-order tests can refuse them.  (a) pk = T, R = r*B, S = r.  (b) R = T, S = h*a with h = H(T || A || M). */
-            for (int t = 0; t < 8; t++) { unsigned char rr[32], w[64], hh[64], kk[32], ar[32], hs[64], a[32]; crypto_hash_sha512_state hst; hexto(torsion_hex[t], T);
+            for (int t = 0; t < NTOR; t++) { unsigned char rr[32], w[64], hh[64], kk[32], ar[32], hs[64], a[32]; crypto_hash_sha512_state hst; hexto(torsion_hex[t], T);
                 vrng_bytes(&R, w, 64); crypto_core_ed25519_scalar_reduce(rr, w); crypto_scalarmult_ed25519_base_noclamp(sig2, rr); memcpy(sig2 + 32, rr, 32);
                 rec_verify("crafted_smallorder_pk", sig2, m, mlen, T, 0);
                 crypto_hash_sha512_init(&hst); crypto_hash_sha512_update(&hst, T, 32); crypto_hash_sha512_update(&hst, pk, 32); crypto_hash_sha512_update(&hst, m, mlen); crypto_hash_sha512_final(&hst, hh);
                 crypto_core_ed25519_scalar_reduce(kk, hh); crypto_hash_sha512(hs, seed, 32); memcpy(a, hs, 32); a[0] &= 248; a[31] &= 127; a[31] |= 64; memset(w, 0, 64); memcpy(w, a, 32); crypto_core_ed25519_scalar_reduce(ar, w);
-                memcpy(sig2, T, 32); crypto_core_ed25519_scalar_mul(sig2 + 32, kk, ar); rec_verify("crafted_smallorder_R", sig2, m, mlen, pk, 0); }
+                memcpy(sig2, T, 32); crypto_core_ed25519_scalar_mul(sig2 + 32, kk, ar); rec_verify("crafted_smallorder_R", sig2, m, mlen, pk, 0);
+                /* the same two constructions for the pre-hashed scheme: h = H(dom2(1, "") || R || A || SHA-512(M)) */
+                { static const unsigned char dom2[34] = "SigEd25519 no Ed25519 collisions\x01\x00"; unsigned char mh[64], sp2[64];
+                  crypto_hash_sha512(mh, m, mlen);
+                  crypto_scalarmult_ed25519_base_noclamp(sp2, rr); memcpy(sp2 + 32, rr, 32); rec_verify_ph("ph_crafted_smallorder_pk", sp2, m, mlen, T, 0);
+                  crypto_hash_sha512_init(&hst); crypto_hash_sha512_update(&hst, dom2, 34); crypto_hash_sha512_update(&hst, T, 32); crypto_hash_sha512_update(&hst, pk, 32); crypto_hash_sha512_update(&hst, mh, 64); crypto_hash_sha512_final(&hst, hh);
+                  crypto_core_ed25519_scalar_reduce(kk, hh); memcpy(sp2, T, 32); crypto_core_ed25519_scalar_mul(sp2 + 32, kk, ar); rec_verify_ph("ph_crafted_smallorder_R", sp2, m, mlen, pk, 0); } }
             /* S = 0 with small-order A: R = identity etc. */
             memset(sig2, 0, 64); sig2[0] = 1; hexto(torsion_hex[4], T); rec_verify("zero_sig_torsion_pk", sig2, m, mlen, T, 0);
             /* non-canonical encoding of the honest R / A: add p to y when y < 19 never happens for random; flip sign bit instead (gives -x) */
